@@ -292,6 +292,19 @@ func TestC08(t *testing.T) {
 	}, wrap)
 	gen := func(t *rapid.T) extCase {
 		c := genExtCase(t, core.AllKinds, 6, 64, true)
+		if rapid.IntRange(0, 7).Draw(t, "bc-near-miss") == 0 {
+			// profile and certificate carry basicConstraints that differ only in an explicit "pathLen: 0"
+			with := core.Extension{Kind: core.KBC, HasContent: true, BC: &core.BC{Ca: core.BoolP(true), PathLen: core.IntP(0)}}
+			without := core.Extension{Kind: core.KBC, HasContent: true, BC: &core.BC{Ca: core.BoolP(true)}}
+			if rapid.Bool().Draw(t, "bc-swap") {
+				with, without = without, with
+			}
+			e := &c.W.Ents[0]
+			e.Extensions = append(e.Extensions, with)
+			name := "bc profile"
+			c.W.Profs = append(c.W.Profs, core.Profile{File: "profiles/bc.yaml", Name: name, Extensions: []core.Extension{without}})
+			e.Profile = name
+		}
 		return c
 	}
 	core.Rapid(r, "e2e", r.Pick(1200, 120000), gen, wrapWorld)
